@@ -57,7 +57,7 @@ fn fast_gnp_random_graph_directed(
     let max_skip = max_skip(num_nodes);
     while v < num_nodes {
         let lr: f64 = (1.0_f64 - rng.gen::<f64>()).ln();
-        w = w + 1 + ((lr / lp) as i32).min(max_skip);
+        w = w + 1 + skip_length(lr, lp, max_skip);
         if v == w {
             w += 1;
         }
@@ -94,7 +94,7 @@ fn fast_gnp_random_graph_undirected(
     let max_skip = max_skip(num_nodes);
     while v < num_nodes {
         let lr: f64 = (1.0_f64 - rng.gen::<f64>()).ln();
-        w = w + 1 + ((lr / lp) as i32).min(max_skip);
+        w = w + 1 + skip_length(lr, lp, max_skip);
         while w >= v && v < num_nodes {
             w -= v;
             v += 1;
@@ -114,6 +114,17 @@ fn fast_gnp_random_graph_undirected(
 /// the edge probability is tiny.
 fn max_skip(num_nodes: i32) -> i32 {
     num_nodes.saturating_mul(num_nodes).min(i32::MAX / 2)
+}
+
+/// The geometric skip length for the draw `lr = ln(1 - r)`. When the edge probability is
+/// below machine precision `lp = ln(1 - p)` is zero and the quotient is infinite or NaN:
+/// such a skip is as long as any skip can be.
+fn skip_length(lr: f64, lp: f64, max_skip: i32) -> i32 {
+    let skip = lr / lp;
+    match skip.is_finite() && skip >= 0.0 {
+        true => (skip as i32).min(max_skip),
+        false => max_skip,
+    }
 }
 
 fn get_random_number_generator(seed: Option<u64>) -> Box<dyn RngCore> {
